@@ -238,8 +238,8 @@ func genC08(t *rapid.T) C08Case {
 				// receives that many contributions and is used that many times
 				manyRoots = true
 				k := rapid.SampledFrom([]int{15, 16, 17, 20, 31, 32, 33, 40}).Draw(t, "nroots")
-				if rapid.IntRange(0, 39).Draw(t, "hugeroots") == 0 {
-					k = 260
+				if rapid.IntRange(0, 29).Draw(t, "hugeroots") == 0 {
+					k = 256 // exactly: a use counter of eight bits is back at zero
 				}
 				first := len(m.e)
 				for i := 0; i < k; i++ {
